@@ -10,6 +10,14 @@ pub fn run(sub: &str, cases: &[Vec<String>]) -> bool {
     if sub != "depth" {
         return false;
     }
+    // this subcommand runs the shell in-process and its language spawns no child processes; the
+    // harness process itself is capped so that a runaway cannot exhaust the machine
+    #[allow(unsafe_code)]
+    // SAFETY: plain setrlimit(2) on this process.
+    unsafe {
+        let a = libc::rlimit { rlim_cur: 8 << 30, rlim_max: 8 << 30 };
+        libc::setrlimit(libc::RLIMIT_AS, &a);
+    }
     // deeply nested programs recurse deeply through the interpreter's futures (debug build):
     // run on a thread with a large stack rather than on the 8 MiB main thread
     let owned: Vec<Vec<String>> = cases.to_vec();
